@@ -16,6 +16,8 @@ CONSTANTS
   TxnBeforeGate = FALSE
   NestedCloseClearsMark = FALSE
   ReadNotCounted = FALSE
+  SqueezedFits = TRUE
+  ReopenClampsMap = FALSE
   BatchMax = 1
   MaxOps = 5
   WithReads = FALSE
